@@ -369,6 +369,11 @@ func cmdCheck(args []string) int {
 		return 0
 	}
 	known := loadKnown()
+	for _, k := range known {
+		if k.Kind == "known" && k.Prop == id {
+			envv.KnownKeys = append(envv.KnownKeys, k.Key)
+		}
+	}
 	var results []*interp.HarnessResult
 	var inconclusive []string
 	violations := 0
